@@ -100,7 +100,7 @@ for _ in range(N):
     wm = rng.randrange(2 ** 32)
     scheme = rng.choice([0, 1])
     pub = bytes(rng.randrange(1, 256) for _ in range(rng.randrange(1, 30)))
-    idle = rng.randrange(2 ** 32)
+    idle = rng.choice([0, 0xffffffff, rng.randrange(2 ** 32)])
     settings = [(1, 1, proto.to_bytes(2, "big")), (2, 1, port.to_bytes(2, "big")), (7, 3, pub + b"\x00" * rng.randrange(0, 9)),
                 (8, 3, dom), (19, 2, idle.to_bytes(4, "big")), (31, 1, scheme.to_bytes(2, "big")), (37, 2, wm.to_bytes(4, "big"))]
     if kd:
@@ -121,4 +121,80 @@ for _ in range(N):
     except BaseException as exn:
         ok, got = False, repr(exn)
     de.case(tuple(pairs), ok, sample={"pairs": pairs[:2], "proto": proto}, witness={"pairs": pairs, "kd": kd, "got": got})
-emit([ex, ga, bg, de])
+# ---- every structured setting, through every pretty view (the decoders themselves: proof part / components above)
+import hashlib
+from dissect.cobaltstrike.beacon import (parse_recover_binary, parse_transform_binary, parse_process_injection_transform_steps,
+                                          parse_pivot_frame)
+cfggen_ns = {}
+exec(open(os.path.join(ROOT, "contracts", "spec", "cfggen.py")).read().replace("__file__", repr(os.path.join(ROOT, "contracts", "spec", "cfggen.py"))), cfggen_ns)
+vw = Component("views-decode-every-structured-setting",
+               "one configuration per (setting, raw value): all 38 settings the property names (programs, execute list, inject "
+               "transforms, section table, frame headers, the 21 string settings, key digest, DNS idle, BOF allocator, BeaconGate, hex "
+               "digests) x raw values {empty, all-NUL, zero, minimal, generated well-formed}; settings, settings_by_index and "
+               "settings_map(pretty=True) for the three index kinds all carry the decoded value (same type), raw views the raw one")
+def ref_str(b):
+    # the bytes before the first NUL, one character per byte (the docstring of null_terminated_str says non-ASCII bytes are
+    # dropped; the code keeps them as latin-1, which is the lossless reading and the one the property's "exact" asks for)
+    return "".join(chr(c) for c in b.split(b"\x00", 1)[0])
+STRINGS = [8, 54, 26, 27, 15, 29, 30, 9, 10, 60, 61, 62, 63, 64, 65, 66]
+def programs():
+    g, p_, sv = cfggen_ns["gen_profile"](rng)
+    return (cfggen_ns["enc_recover_program"](cfggen_ns["server_recover_list"](sv)), cfggen_ns["enc_transform_program"](g),
+            cfggen_ns["enc_transform_program"](p_))
+TABLE = []      # (index, type, raw, expected) ; expected None = take the library decoder's direct answer
+for rep in range(3 if TIER == "quick" else 40):
+    rec, tget, tpost = programs()
+    for raw in (b"", bytes(8), bytes(256), rec):
+        TABLE.append((11, 3, raw, lambda r=raw: parse_recover_binary(r)))
+    for raw in (b"", bytes(8), bytes(512), tget):
+        TABLE.append((12, 3, raw, lambda r=raw: parse_transform_binary(r)))
+    for raw in (b"", bytes(8), bytes(512), tpost):
+        TABLE.append((13, 3, raw, lambda r=raw: parse_transform_binary(r, build="id")))
+    for raw in (b"", bytes(4), bytes(128), bytes([1, 2, 8, 0]), bytes([6]) + (3).to_bytes(2, "big") + (2).to_bytes(4, "big") + b"a\x00" + (2).to_bytes(4, "big") + b"b\x00" + b"\x00"):
+        TABLE.append((51, 3, raw, lambda r=raw: parse_execute_list(r)))
+    for idx in (46, 47):
+        for raw in (b"", bytes(8), bytes(256), (2).to_bytes(4, "big") + b"ap" + (0).to_bytes(4, "big"),
+                    (0).to_bytes(4, "big") + (3).to_bytes(4, "big") + b"pre" + bytes(rng.randrange(0, 9))):
+            TABLE.append((idx, 3, raw, lambda r=raw: parse_process_injection_transform_steps(r)))
+    for raw in (b"", bytes(8), bytes(64), (0x1000).to_bytes(4, "little") + (0x2fff).to_bytes(4, "little") + bytes(8)):
+        TABLE.append((42, 3, raw, lambda r=raw: parse_gargle(r)))
+    for idx in (57, 58):
+        hdr = bytes(rng.randrange(256) for _ in range(rng.randrange(0, 12)))
+        for raw in ((len(hdr) + 4).to_bytes(2, "big") + hdr + bytes(rng.randrange(0, 6)), (4).to_bytes(2, "big"), (4).to_bytes(2, "big") + bytes(126)):
+            TABLE.append((idx, 3, raw, lambda r=raw: parse_pivot_frame(r)))
+    for idx in STRINGS:
+        word = bytes(rng.choice(b"abcXYZ/%\\.-_ ") for _ in range(rng.randrange(0, 12)))
+        for raw in (b"", bytes(rng.choice([1, 16, 64])), word, word + bytes(rng.randrange(1, 5)), word + b"\x00" + b"junk", b"\xff" + word + b"\x00"):
+            TABLE.append((idx, 3, raw, lambda r=raw: ref_str(r)))
+    key = bytes(rng.randrange(1, 256) for _ in range(rng.randrange(0, 40)))
+    for raw in (b"", bytes(256), key, key + bytes(256 - len(key))):
+        TABLE.append((7, 3, raw, lambda r=raw: hashlib.sha256(r.rstrip(b"\x00")).hexdigest()))
+    for v in (0, 1, 0xffffffff, 0x7f000001, rng.randrange(2 ** 32)):
+        TABLE.append((19, 2, v.to_bytes(4, "big"), lambda v=v: str(ipaddress.IPv4Address(v))))
+    for v in (0, 1, 2):
+        TABLE.append((16, 1, v.to_bytes(2, "big"), lambda v=v: ["VirtualAlloc", "MapViewOfFile", "HeapAlloc"][v]))
+    for raw in (bytes(23), bytes([1]) * 23, bytes([0, 0] + [1] * 21), bytes(rng.randrange(2) for _ in range(23))):
+        TABLE.append((78, 3, raw, lambda r=raw: beacon_gate_options_string(parse_beacon_gate(r))))
+    for idx in (53, 14, 74):
+        for raw in (b"", bytes(16), bytes(rng.randrange(256) for _ in range(16))):
+            TABLE.append((idx, 3, raw, lambda r=raw: r.hex()))
+    for raw in (b"", bytes(32), b"hash" + bytes(4) + b"x"):
+        TABLE.append((36, 3, raw, lambda r=raw: r.split(b"\x00", 1)[0]))
+for idx, ty, raw, fexp in TABLE:
+    try:
+        want = fexp()
+    except Exception:       # noqa: the raw value is outside the decoder's well-formed domain
+        continue
+    try:
+        bc = BeaconConfig(ns["tlv_block"]([(1, 1, b"\x00\x00"), (idx, ty, raw), (2, 1, b"\x00\x50")]))
+        en = BeaconSetting(idx)
+        got = [bc.settings[en.name], bc.settings_by_index[idx], bc.settings_map(index_type="enum", pretty=True)[en],
+               bc.settings_map(index_type="name", pretty=True)[en.name], bc.settings_map(index_type="const", pretty=True)[idx]]
+        rawwant = raw if ty == 3 else int.from_bytes(raw, "big")
+        base = next(t for t in (bool, int, str, bytes, list) if isinstance(want, t))
+        ok = all(g == want and isinstance(g, base) for g in got) and bc.raw_settings[en.name] == rawwant and bc.raw_settings_by_index[idx] == rawwant
+        w = {"setting": en.name, "raw_hex": raw.hex()[:200], "expected": repr(want)[:300], "views": repr(got)[:600]}
+    except Exception as exn:      # noqa
+        ok, w = False, {"setting": idx, "raw_hex": raw.hex()[:200], "expected": repr(want)[:300], "error": repr(exn)[:300]}
+    vw.case((idx, raw), ok, sample={"setting": idx, "raw": raw.hex()[:40]}, witness=w)
+emit([ex, ga, bg, de, vw])
